@@ -964,6 +964,38 @@ impl Overlay {
     }
 }
 
+/// Verification hooks (compiled only with `--cfg nomt_verif`): the rollback delta a finished session
+/// carries, the rollback log a store holds, and holding one of the rollback log's locks.
+#[cfg(nomt_verif)]
+#[allow(missing_docs)]
+impl FinishedSession {
+    /// The priors of the delta `Session::finish` built (ascending by key); `None`: no delta.
+    pub fn verif_rollback_delta(&self) -> Option<crate::verif_api::Priors> {
+        self.rollback_delta
+            .as_ref()
+            .map(crate::rollback::verif_delta::priors_of)
+    }
+}
+
+#[cfg(nomt_verif)]
+#[allow(missing_docs)]
+impl<T: HashAlgorithm> Nomt<T> {
+    /// The in-memory rollback log, the pending truncation and the live range of the seglog.
+    pub fn verif_rollback_view(&self) -> Option<crate::verif_api::LogView> {
+        self.store
+            .rollback()
+            .map(crate::rollback::verif_delta::log_view)
+    }
+
+    /// Run `f` while this thread holds the `in_memory` (1) or the `seglog` (2) lock of the rollback log.
+    pub fn verif_with_rollback_lock<R>(&self, which: u8, f: impl FnOnce() -> R) -> R {
+        match self.store.rollback() {
+            Some(rollback) => crate::rollback::verif_delta::with_lock(rollback, which, f),
+            None => f(),
+        }
+    }
+}
+
 /// A marker trait for hash functions usable with NOMT. The type must support both hashing nodes as
 /// well as values.
 ///
